@@ -222,7 +222,7 @@ def run(ctx):
     for e in sub.errors:
         ctx.error("shared C16 rules: " + e)
     for o in sub.obligations:
-        if o.rule in ("C16.R1", "C16.R2"):
+        if o.rule in ("C16.R1", "C16.R2", "C16.R6"):
             ctx.ob("C17.R6", o.where, o.ok, o.what, key=o.key, loc=o.loc, detail=o.detail)
     ctx.floor("C17.R6", 12 + 12 + 14)
     # R7: no construct holds a stateful helper object between calls: an iterator, generator, stream or file created at construction time
